@@ -313,7 +313,7 @@ def r2(ctx, F, rule, sfx):
     # ... and the step is decided by the KIND of the popped entry alone: a parent is always expanded, a leaf always reported, the stream ends only
     # when the frontier is empty — no cut-off on the key, no bound on the number of steps (every generator and every image is visited, however far)
     popr = re.escape(repr(I.frozen(pop[0].result)))
-    kind = re.compile(r'^\(discr\(%s(\.Some\.0\.node)?\) (==|!=) \d\)$' % popr)
+    kind = re.compile(r'^(\(discr\(%s(\.Some\.0(\.node)?)?\) (==|!=) \d\)|b:is_some\(%s\)|b:is_none\(%s\))$' % (popr, popr, popr))       # (`?` on the pop reads is_some)
     foreign = []
     for g in [g for e in evs for g in e.guard] + [c for conds, _leaf in cases(v) for c in conds]:
         for l in dtab.b_leaves(g).values():
